@@ -417,6 +417,81 @@ def run_pipeline(payload):
     return res
 
 
+def run_markup_sessions(payload):
+    """One recorded session per marked-up document (Eyecite.tla, markup flow):
+    clean_text -> get_citations(markup_text=..., clean_steps=...) -> two-step merge
+    (extract_reference_citations with resolved names + filter_citations) -> resolve_citations on a
+    prefix -> annotate_citations(plain, spans, source_text=markup) in the three modes.
+    Every call is logged at its return, on the error path too."""
+    from eyecite import annotate_citations, clean_text, resolve_citations
+    from eyecite.find import extract_reference_citations
+    from eyecite.helpers import filter_citations
+    from eyecite.models import Document, FullCaseCitation
+    res = []
+
+    def cites_of(cs):
+        return [{"s": c.span()[0], "e": c.span()[1], "kind": KIND.get(type(c).__name__, "unknown")} for c in cs]
+    for it in payload["items"]:
+        markup, steps, tok = it["markup"], it["steps"], it.get("tok", "aho")
+        events = []
+        o = {"n": len(markup), "events": events}
+        res.append(o)
+        ev = {"ev": "clean", "n_after": 0, "raised": ""}
+        try:
+            plain = clean_text(markup, steps)
+            ev["n_after"] = len(plain)
+        except Exception as ex:  # noqa: BLE001
+            ev["raised"] = f"{type(ex).__name__}: {ex}"[:300]
+            events.append(ev)
+            continue
+        events.append(ev)
+        ev = {"ev": "get_citations", "tok": tok, "ra": False, "cites": [], "raised": ""}
+        try:
+            cs = extract(None, tok, markup=markup, steps=steps)
+            ev["cites"] = cites_of(cs)
+        except Exception as ex:  # noqa: BLE001
+            ev["raised"] = f"{type(ex).__name__}: {ex}"[:300]
+            events.append(ev)
+            continue
+        events.append(ev)
+        ev = {"ev": "merge", "cites": [], "raised": ""}
+        try:
+            doc = Document(plain_text="", markup_text=markup, clean_steps=steps)
+            ext = list(cs)
+            for f in [c for c in cs if isinstance(c, FullCaseCitation)]:
+                words = [w for w in (f.metadata.plaintiff or "").split() + (f.metadata.defendant or "").split()
+                         if len(w) > 2 and w[0].isupper()]
+                f.metadata.resolved_case_name_short = words[0] if words else None
+                ext.extend(extract_reference_citations(f, doc))
+            cs = filter_citations(ext)
+            ev["cites"] = cites_of(cs)
+        except Exception as ex:  # noqa: BLE001
+            ev["raised"] = f"{type(ex).__name__}: {ex}"[:300]
+            events.append(ev)
+            continue
+        events.append(ev)
+        upto = it.get("upto", len(cs))
+        ev = {"ev": "resolve", "groups": [], "raised": ""}
+        try:
+            r = resolve_citations(cs[:upto])
+            pos = {id(c): i + 1 for i, c in enumerate(cs)}
+            ev["groups"] = [[pos.get(id(c), 0) for c in v] for v in r.values()]
+        except Exception as ex:  # noqa: BLE001
+            ev["raised"] = f"{type(ex).__name__}: {ex}"[:300]
+        events.append(ev)
+        for mode in ("unchecked", "skip", "wrap"):
+            ev = {"ev": "annotate", "mode": mode, "wrapped": [], "exact": False, "raised": ""}
+            try:
+                anns = [(c.span(), f"\x01{k}\x02", "\x03") for k, c in enumerate(cs)]
+                out = annotate_citations(plain, anns, source_text=markup, unbalanced_tags=mode)
+                if not isinstance(out, str):
+                    raise TypeError("annotate_citations did not return a string")
+            except Exception as ex:  # noqa: BLE001
+                ev["raised"] = f"{type(ex).__name__}: {ex}"[:300]
+            events.append(ev)
+    return res
+
+
 def canon(c):
     import json as _json
     p = proj(c)
